@@ -51,6 +51,7 @@ UNRELATED_VARS = ['FOO', 'BUILD_ID', 'LANGUAGE', 'MY_CARGO_X']
 HASHED_VARS = {'c': ['SCCACHE_C_CUSTOM_CACHE_BUSTER', 'SDKROOT'], 'rustc': ['CARGO_PKG_VERSION', 'CARGO_PKG_NAME']}
 PP_ALLOW = ['SCCACHE_C_CUSTOM_CACHE_BUSTER', 'CPATH', 'C_INCLUDE_PATH', 'CPLUS_INCLUDE_PATH', 'OBJC_INCLUDE_PATH',
             'OBJCPLUS_INCLUDE_PATH']          # preprocessor_cache.rs CACHED_ENV_VARS (used for the abstract pp key only)
+PROFILE_FLAGS = ['-ftest-coverage', '--coverage', '-fprofile-generate']
 NUNITS = 3
 
 
@@ -102,7 +103,7 @@ def gen_plan(rng, tool, pp, cap, nreq, idle_timeout=0):
         return {'op': 'compile', 'unit': unit, 'opt': rng.choice(['-O0', '-O1', '-O2']),
                 'defs': rng.choice([[], ['-DK=1'], ['-DK=2', '-DJ']]),
                 'extra': rng.choice([[], ['-Wall'], ['-g'], ['-fPIC', '-Wall'], ['-ftest-coverage']]),
-                'md': rng.chance(1, 6),
+                'md': rng.chance(1, 6), 'md_first': rng.chance(1, 2),
                 'out': fresh_out(), 'env': [], 'bad': bad()}
 
     def vary(base):
@@ -376,6 +377,8 @@ class Runner:
             a += ['l%d.rs' % u, '--out-dir', c['out']]
             return a
         md = ['-MD', '-MF', c['out'] + '.d'] if c.get('md') else []
+        if c.get('md_first'):       # -MD before the -D options: a later preprocessor argument must not re-enable pp-cache mode
+            return md + [c['opt']] + self.defs(c) + c['extra'] + ['-c', 'u%d.c' % u, '-o', c['out']]
         return [c['opt']] + self.defs(c) + c['extra'] + md + ['-c', 'u%d.c' % u, '-o', c['out']]
 
     @staticmethod
@@ -397,6 +400,11 @@ class Runner:
         if '-ftest-coverage' in c['extra']:
             o.append(('gcno', os.path.splitext(c['out'])[0] + '.gcno'))
         return sorted(o)
+
+    def keyed_out(self, c):
+        """An object instrumented for coverage / profiling embeds the location of its .gcno/.gcda files, derived from the
+        output path: for such requests (and only for them) the output name is part of what makes a request identical."""
+        return os.path.join(self.ws, c['out']) if any(x in PROFILE_FLAGS for x in c['extra']) else ''
 
     def file_digest(self, rel):
         return h64(open(os.path.join(self.ws, rel), 'rb').read())
@@ -420,7 +428,9 @@ class Runner:
             return ['req', tag, 'rust', 7, args, [[k.encode(), v.encode()] for k, v in env], [], self.ws.encode(),
                     inputs, [[r.encode(), p.encode(), 0] for r, p in self.outputs(c)], [], oracle]
         defs = self.defs(c)
-        args = [['h', c['opt'].encode()]] + [['u', d.encode()] for d in defs] + [['h', x.encode()] for x in c['extra']]
+        # -ftest-coverage sets `profile_generate`: the absolute object path then enters the key (model: AProfile)
+        args = [['h', c['opt'].encode()]] + [['u', d.encode()] for d in defs] + \
+               [['p' if x in PROFILE_FLAGS else 'h', x.encode()] for x in c['extra']]
         if c.get('md'):
             args += [['u', b'-MD'], ['u', b'-MF'], ['u', (c['out'] + '.d').encode()]]
         args += [['u', b'-c'], ['u', b'u%d.c' % u], ['out', c['out'].encode()]]
@@ -433,7 +443,7 @@ class Runner:
         ppkey = []
         if self.plan['pp'] and not c.get('md'):          # -MD is "too hard" for preprocessor-cache mode
             henv = sorted((k, v) for k, v in env if k in PP_ALLOW)
-            ppkey = [h64(b'ppkey', c['opt'], json.dumps(defs), json.dumps(c['extra']), json.dumps(henv),
+            ppkey = [h64(b'ppkey', c['opt'], json.dumps(defs), json.dumps(c['extra']), json.dumps(henv), self.keyed_out(c),
                          'u%d.c' % u, srcs[0]).to_bytes(8, 'big')]
         comp = h64(open(self.cc, 'rb').read())
         return ['req', tag, 'c', comp, args, [[k.encode(), v.encode()] for k, v in env], [], self.ws.encode(),
@@ -450,7 +460,7 @@ class Runner:
                     tuple(sorted((x, self.file_digest('deps/lib%s.rlib' % x)) for x in c['externs'])),
                     tuple(henv), self.ws, self.file_digest('l%d.rs' % u))
         henv = sorted((k, v) for k, v in c['env'] if k in C_ALLOW)
-        return ('c', u, c['opt'], tuple(self.defs(c)), tuple(c['extra']), bool(c.get('md')), tuple(henv),
+        return ('c', u, c['opt'], tuple(self.defs(c)), tuple(c['extra']), bool(c.get('md')), bool(c.get('md') and c.get('md_first')), tuple(henv), self.keyed_out(c),
                 tuple(self.file_digest(f) for f in ('u%d.c' % u, 'u%d.h' % u, 'common.h')))
 
     def classify_log(self, lines):
